@@ -1,5 +1,6 @@
 import Nsq.Model.Life
 import Nsq.Model.InFlight
+import Nsq.Model.Restart
 import Nsq.Proofs.Life
 import Nsq.Proofs.InFlight
 import Nsq.Proofs.LifeLock
@@ -61,6 +62,43 @@ theorem no_fault (s : InFlight.St) (sched : List InFlight.Step) :
 example : (match InFlight.run true (InFlight.initSt [1]) f7Schedule with
     | InFlight.Res.ok s => s.map.isEmpty && s.h.pq.isEmpty && s.conts == [InFlight.Cont.emptyAfterInflightReset]
     | _ => false) = true := by decide
+
+
+/-- even with the patch `MapHeapAgree` at quiescence does not hold for every schedule: `Empty`
+between the map insert and the heap insert of StartInFlightTimeout leaves a heap entry without a map
+entry (replayed on the real code: corpus/C08/known/empty_races_delivery.sched) -/
+def zombieSchedule : List InFlight.Step :=
+  [.put 1, .startMapPush 1 1 100, .emptyResetInflight, .emptyResetDeferred, .emptyRest, .startPQPush 1]
+
+theorem map_heap_agree_full_false :
+    (match InFlight.run true (InFlight.initSt []) zombieSchedule with
+     | InFlight.Res.ok s => s.conts.isEmpty && !(InFlight.mapHeapAgreeB s) && decide (s.h.pq = [1]) && s.map.isEmpty
+     | _ => false) = true := by decide
+
+
+/-! ### the heap code maintains its index fields (all heaps, all arguments) -/
+
+/-- `Push(x)` of an object not in the heap: afterwards every slot's object carries that slot's index -/
+theorem heap_push_index_ok (h h' : InFlight.HS) (x : Nat) (ok : InFlight.IndexOK h) (hx : x ∉ h.pq)
+    (hp : InFlight.push h x = some h') : InFlight.IndexOK h' :=
+  Nsq.Proofs.InFlight.push_indexOK h h' x ok hx hp
+
+/-- `Remove(i)` (any in-range i): the indices stay right, the removed object gets `index = -1` and is gone -/
+theorem heap_remove_index_ok (h : InFlight.HS) (i : Int) (r : InFlight.HS × Nat) (ok : InFlight.IndexOK h)
+    (hr : InFlight.remove h i = some r) :
+    InFlight.IndexOK r.1 ∧ (r.1.objs r.2).index = -1 ∧ r.2 ∉ r.1.pq :=
+  Nsq.Proofs.InFlight.remove_indexOK h i r ok hr
+
+theorem heap_pop_index_ok (h : InFlight.HS) (r : InFlight.HS × Nat) (ok : InFlight.IndexOK h)
+    (hr : InFlight.pop h = some r) :
+    InFlight.IndexOK r.1 ∧ (r.1.objs r.2).index = -1 ∧ r.2 ∉ r.1.pq :=
+  Nsq.Proofs.InFlight.pop_indexOK h r ok hr
+
+/-- non-vacuity: a three-element heap built by Push satisfies IndexOK, and a state with a stale
+index does not -/
+example : InFlight.indexOkB { objs := fun k => { pri := 10 - k, index := if k = 3 then 0 else if k = 2 then 1 else 2, client := 0 },
+                              pq := [3, 2, 1] } = true := by decide
+example : InFlight.indexOkB { objs := fun _ => { pri := 0, index := 0, client := 0 }, pq := [1, 2] } = false := by decide
 
 /-! ## deadlock freedom (lock part) -/
 
@@ -289,6 +327,54 @@ theorem ephemeral_put_no_disk (cap : Nat) (C : Chan) (m : Msg) (he : C.eph = tru
     by_cases h : C.memLen < cap
     · simp [h]
     · simp [h, he]
+
+
+/-- files are only ever created for durable owners: an ephemeral topic or channel never reaches
+the disk, whatever the operation and the state (`DurableOwner`: a non-ephemeral topic / channel of
+that name exists) -/
+theorem ephemeral_no_disk (s : St) (o : Op) (b : BName) (hb : b ∈ (step s o).1.files) :
+    b ∈ s.files ∨ DurableOwner s b :=
+  files_only_for_durable s o b hb
+
+/-- … and along any history from an empty daemon every backend that owns files was, at the moment
+its first file was written, a durable topic or channel -/
+theorem ephemeral_no_disk_history (cap : Nat) : ∀ (ops : List Op) (b : BName), b ∈ (run (init cap) ops).files →
+    ∃ pre o post, ops = pre ++ o :: post ∧ DurableOwner (run (init cap) pre) b := by
+  intro ops
+  have gen : ∀ (ops : List Op) (s : St) (b : BName), b ∈ (run s ops).files → b ∈ s.files ∨
+      ∃ pre o post, ops = pre ++ o :: post ∧ DurableOwner (run s pre) b := by
+    intro ops
+    induction ops with
+    | nil => intro s b hb; exact Or.inl hb
+    | cons o os ih =>
+      intro s b hb
+      rcases ih (step s o).1 b hb with h | ⟨pre, o', post, he, hd⟩
+      · rcases files_only_for_durable s o b h with h1 | h1
+        · exact Or.inl h1
+        · exact Or.inr ⟨[], o, os, rfl, h1⟩
+      · exact Or.inr ⟨o :: pre, o', post, by rw [he]; rfl, hd⟩
+  intro b hb
+  rcases gen ops (init cap) b hb with h | h
+  · simp [init] at h
+  · exact h
+
+def mX : Msg := { id := 31, ts := 1, attempts := 0, body := [7] }
+
+/-- an ephemeral topic with a durable channel holding one message; graceful restart; the topic is
+created again -/
+def orphanState : St :=
+  (step (Restart.cycle (run (init 1) [.createTopic "e#" true, .createChan "e#" "c" false, .pub "e#" mX, .pump "e#"]))
+    (.createTopic "e#" true)).1
+
+theorem recreate_empty_full_false : ¬ RecreateEmptyFull := by
+  intro h
+  have hT : getTopic orphanState "e#" = some { name := "e#", eph := true } := by decide
+  have hC : ({ name := "e#", eph := true } : Topic).getChan "c" = none := by decide
+  have hg : getChan (step orphanState (.createChan "e#" "c" false)).1 "e#" "c" =
+      some { name := "c", eph := false, queue := [mX] } := by decide
+  have := h orphanState "e#" "c" false _ hT hC _ hg
+  simp [Chan.located] at this
+
 
 /-! ### non-vacuity: one concrete history exercises every hypothesis above -/
 
